@@ -1,5 +1,5 @@
 import json, sys, subprocess, os
-ROUND = 'r6'
+ROUND = 'r7'
 ids = sys.argv[1:]
 props = {json.loads(l)['id']: json.loads(l) for l in open('/verif/properties.jsonl')}
 for pid in ids:
@@ -58,7 +58,7 @@ Up to THREE different, independent changes to the library source (files under `s
    interleaving, or two cooperating sites that each look fine alone.  NOT something ordinary use would
    expose at once.
    
-This is a SIXTH round.  The changes below have ALREADY been collected for this property by earlier rounds — do NOT
+This is a SEVENTH round.  The changes below have ALREADY been collected for this property by earlier rounds — do NOT
 repeat them or close variations of them (same function + same kind of mistake):
 
 {prior}
